@@ -106,6 +106,11 @@ static size_t fail_size = 0;
 static int fail_alloc_counter = _DBUS_INT_MAX;
 static int n_failures_per_failure = 1;
 static int n_failures_this_failure = 0;
+#ifdef DBUS_VERIF_SIM
+/* verification hook H5: after the armed allocation failure has fired, fail
+ * once more this many allocations later (-1: not armed) */
+static int verif_second_failure_gap = -1;
+#endif
 static dbus_bool_t guards = FALSE;
 static dbus_bool_t disable_mem_pools = FALSE;
 static dbus_bool_t backtrace_on_fail_alloc = FALSE;
@@ -243,6 +248,20 @@ _dbus_get_fail_alloc_failures (void)
 }
 
 #ifdef DBUS_ENABLE_EMBEDDED_TESTS
+#ifdef DBUS_VERIF_SIM
+/**
+ * Verification hook H5 (compiled only with DBUS_VERIF_SIM): arms a second
+ * allocation failure, gap allocations after the one armed with
+ * _dbus_set_fail_alloc_counter() has fired. Pass -1 to disarm.
+ */
+void _dbus_verif_set_second_alloc_failure (int gap);
+void
+_dbus_verif_set_second_alloc_failure (int gap)
+{
+  verif_second_failure_gap = gap;
+}
+#endif
+
 /**
  * Called when about to alloc some memory; if
  * it returns #TRUE, then the allocation should
@@ -282,6 +301,14 @@ _dbus_decrement_fail_alloc_counter (void)
             fail_alloc_counter = fail_nth;
           else
             fail_alloc_counter = _DBUS_INT_MAX;
+
+#ifdef DBUS_VERIF_SIM
+          if (verif_second_failure_gap >= 0)
+            {
+              fail_alloc_counter = verif_second_failure_gap;
+              verif_second_failure_gap = -1;
+            }
+#endif
 
           n_failures_this_failure = 0;
 
